@@ -288,6 +288,10 @@ def _fold_color_functions(toks):
                     continue
                 except Exception:
                     pass
+        if cls == "ident" and text.lower() == "transparent" and (not out or out[-1][0] in ("ws", "colon", "comma")):
+            out.append(["color", "rgba(0,0,0,0)"])          # the keyword and its rgba() spelling are one colour
+            i += 1
+            continue
         if cls == "hash" and re.fullmatch(r"#[0-9a-fA-F]{8}|#[0-9a-fA-F]{4}", text):
             h = text[1:].lower()
             if len(h) == 4:
